@@ -288,9 +288,9 @@ class TableParser:
 
         while i < len(children):
             token = children[i]
-            if token.tagname not in ("ref",) and (
-                token.text is None or token.text.startswith("\n")
-            ):
+            # the caption ends at the end of its line or at the first row; other complex tokens
+            # (a formula, a reference, a styled span) are part of it
+            if (token.type == T.t_complex_table_row) if token.text is None else token.text.startswith("\n"):
                 self.parse_complex_caption(children, start, i, modifier)
                 return
             elif token.type == T.t_special and token.text == "|" and modifier is None:
